@@ -461,7 +461,11 @@ theorem applyPostFilter_norm (env : Env) (parent : Component) (fold : Fold) (f :
     simp only [R.bind_eq_bind, this, R.map_bind]
     cases applyFilter env parent fold.fromVid f [c.pushValue (.uint64 (UInt64.ofNat n))] <;> simp
     rename_i l; cases l <;> rfl
-  · rfl
+  · have := applyFilter_norm T clr env parent fold.fromVid f hf [c.pushValue .null]
+    simp only [List.map_cons, List.map_nil, ← pushValue_norm] at this
+    simp only [R.bind_eq_bind, this, R.map_bind]
+    cases applyFilter env parent fold.fromVid f [c.pushValue .null] <;> simp
+    rename_i l; cases l <;> rfl
   · rfl
 
 theorem applyPostFilters_norm (env : Env) (parent : Component) (fold : Fold) (fs : List IRFilter)
